@@ -1,6 +1,6 @@
 """C05: cachex never serves a result older than 2x expiry and refreshes stale ones once; the sweep is invisible."""
 from .runner import Spec
-from .c04 import Scenario, judge_pure, CACHE_ANCHORS, CACHE_TRUSTED
+from .c04 import Scenario, judge_pure, monitor_coverage, CACHE_ANCHORS, CACHE_TRUSTED
 
 # the constants of the PROPERTY TEXT (not read from the source): stale after E, gone after 2E
 STALE = 1
@@ -45,6 +45,13 @@ def c05_oracle(sc):
                     and cur["pair"] != ("nil", "nil") and age < GONE * cur["E"]:
                 return ("live-result-not-served", "Get2 c%d key %s at %d returned (nil,nil) although %s completed at %d is only %d old (2E = %d)"
                         % (c["cid"], key, t, cur["pair"], cur["u"], age, GONE * cur["E"]))
+            # (6) a load in flight is awaited: Get2 must not answer (nil, nil) at once while a load of the key (not displaced
+            #     by Set) is definitely running and no (nil,nil) result exists that it could legitimately hand out
+            if c["kind"] == "get2" and c["ret"] == ("nil", "nil") and c["ret_t"] == t and definite \
+                    and not any(r["pair"] == ("nil", "nil") for r in sc.results(key)) \
+                    and not any(l["call_t"] is not None and l["pair"] == ("nil", "nil") for l in sc.loads(key)):
+                return ("inflight-not-awaited", "Get2 c%d key %s at %d returned (nil,nil) at once although a load of that key is in flight"
+                        % (c["cid"], key, t))
             if c["kind"] != "load":
                 continue
             started = sc.inv_of_load(c["cid"]) is not None
@@ -99,6 +106,9 @@ class C05(Spec):
         if not sc.ok:
             return None
         return c05_oracle(sc)
+
+    def extra(self, ctx):
+        monitor_coverage(ctx)
 
     def nontrivial(self, script, impl):
         if not script.startswith("cfg") or not impl.startswith("S="):
